@@ -6,6 +6,8 @@
 import GocoinV.Proofs.C07Hist
 import GocoinV.Proofs.C07JHist
 import GocoinV.Proofs.C07Pos
+import GocoinV.Proofs.C07KMain
+import GocoinV.Proofs.C07Roll
 namespace GocoinV.Props.C07
 open GocoinV.Persist GocoinV.Proofs.C07
 
@@ -109,24 +111,89 @@ CommitBlockTxs, UndoBlockTxs, BlockTrusted, ParseTillBlock, MoveToBlock (reorgan
 AcceptBlock, writeOne/writeAll, Idle, Close, NewChainExt, the client's recovery loop, a restart in the middle of the
 history (Proofs/C07Ops.lean, C07Run.lean, C07Hist.lean).
 
--- OPEN: crash_consistent, full strength:
---   ∀ bigs ops, WF (submitted ops) → (no undo file of another block is read) → ∀ k ≤ (run bigs ops).es.length,
---     consistentAt bigs ops k = true
--- `consistentAt` has four conjuncts.  PROVED for ALL histories and ALL crash points: the restart does not panic in NewChainExt
--- (`crash_reopen_partial`, unconditionally, also inside the known-finding window); the recovered tip is genesis or a submitted
--- block and the recovered set is the replay of its chain (`recovered_set_is_replay`, under WF and the exact exclusion
--- "no foreign undo file read"; on the witness that exclusion is exactly the failure window: `witness_fails_iff_foreign_undo_read`).
--- NOT proved in general (only on the five concrete shapes below, by kernel evaluation, every crash point each):
---  (a) that the recovery loop itself does not stop with a panic ("unknown path to block" / "No data for block" / missing undo
---      file): needs the undo files of the active branch above the snapshot to EXIST (an invariant like C06's UndoOK) and
---      FindPathTo completeness;
---  (b) s3.tip = (uninterrupted run).tip — the convergence conjunct: needs "MoveToBlock reaches its destination" (proved here as part
---      of `moveToBlock_spec`: err = none → tip = dst), "the recovery loop ends at the farthest leaf", "feeding every block leaves the
---      tip at the unique highest block" (uniqueness of the best leaf as a hypothesis) — a maximal-height invariant threaded
---      through every operation and through the restart, not done.  Given (b), the set conjunct for s3 follows from
---      `recovered_set_is_replay` + `running_set_is_replay` (both sets are the replay of the same tip's chain).
---  Note: without "parent submitted before child" the convergence conjunct is FALSE of the model's `crashAt`, which feeds ALL blocks
---  again (an orphan refused in the uninterrupted run is accepted after the restart when its parent is then on disk). -/
+The central statement `crash_consistent` is proved below (`crash_consistent`, after `crash_reopen_partial` and the two no-panic
+theorems), with these hypotheses:
+  * `WF (submitted ops)` — see above;
+  * "no undo file of another block is read": by the uninterrupted run (`(run bigs ops).foreign = false`) and by the restart after
+    crash point k (`crashForeign bigs ops k = false`, the ghost flag of the three stages computed WITHOUT stopping at a panic) —
+    the exclusion of the known finding undo-file-keyed-by-height, exactly the failure window on the witness;
+  * `ParentsFirst (submitted ops)` — `crashAt` hands ALL blocks of the workload to the restarted node again; an orphan refused by the
+    uninterrupted run would be accepted after the restart when its parent is then on disk;
+  * `UniqueBest (submitted ops)` — with two blocks of maximal height the first one seen wins; whether "first seen" is the same for the
+    uninterrupted run and for the restarted one (FindFarthestNode over the blocks loaded from disk — in the real code in Go map
+    order) is not something the property promises;
+  * every submitted block is in the uninterrupted run's tree at its end — PROVED for every history without an in-history restart
+    (`restart_free_run_accepts_all`, hence `crash_consistent_restart_free`); an in-history restart is a kill, it forgets the blocks
+    not yet flushed, so such a history is not an "uninterrupted run" in the property's sense.
+  (That the uninterrupted run does not panic is proved, in-history restarts included: `run_never_panics`; the ghost flag of a
+  FAILED in-history restart is kept by `step`.) -/
+
+/-- the running node never panics and its tip is always a highest block of its tree: for EVERY history (in-history restarts
+    included) over well-formed blocks, as long as no undo file of another block is read — UndoLastBlock finds block data and undo
+    file, FindFirstFather returns a common ancestor within its fuel, FindPathTo succeeds, ParseTillBlock finds every block valid,
+    NewChainExt and the recovery loop of an in-history restart succeed. -/
+theorem run_never_panics (bigs : List Coin) (ops : List Op) (hwf : WF (submitted ops))
+    (hrun : (run bigs ops).foreign = false) :
+    (run bigs ops).err = none ∧ ∀ t ∈ (run bigs ops).n.tree, t.height ≤ (run bigs ops).n.tipHeight :=
+  let h := (run_K hwf bigs ops (fun _ h => h) hrun).1
+  ⟨h.k0.err, h.maxH⟩
+
+example : WF (submitted (wlReorgNoSave ++ [.reopen])) ∧ (run [] (wlReorgNoSave ++ [.reopen])).foreign = false := by
+  refine ⟨⟨by decide +kernel, by decide +kernel, by decide +kernel, by decide +kernel, by decide +kernel⟩, by decide +kernel⟩
+
+/-- the undo-file part of the disk invariant, at EVERY crash prefix of every such history: every snapshot file on disk (UTXO.db,
+    UTXO.old, every <hash>.db.tmp) has the undo files undo/1 … undo/<its height> next to it (CommitBlockTxs renames undo/<h> into
+    place before LastBlockHeight becomes h; the model has no removal of undo/<h − UnwindBufLen>, i.e. heights ≤ 2560). -/
+theorem every_crash_prefix_has_undo_files (bigs : List Coin) (ops : List Op) (k : Nat) (hwf : WF (submitted ops))
+    (hrun : (run bigs ops).foreign = false) :
+    UInv (applyAll {} ((run bigs ops).es.take k)) :=
+  (run_K hwf bigs ops (fun _ h => h) hrun).2.pref k
+
+/-- the restart never panics (item (a) of the earlier passes): after a crash at ANY point k of ANY history (well-formed blocks, the run itself
+    without a foreign undo file read) NewChainExt, the client's recovery loop and the feeding of every block all
+    complete without a panic as long as THEY read no undo file of another block, and the recovery loop leaves the tip at a highest
+    block stored on disk. -/
+theorem recovery_never_panics (bigs : List Coin) (ops : List Op) (k : Nat) (hwf : WF (submitted ops))
+    (hrun : (run bigs ops).foreign = false) (hcr : crashForeign bigs ops k = false) :
+    ∃ s1 s2 s3, crashAt bigs ops k = .ok (s1, s2, s3) ∧ (∀ t ∈ s2.n.tree, t.height ≤ s2.n.tipHeight) ∧
+      (∀ t ∈ s3.n.tree, t.height ≤ s3.n.tipHeight) := by
+  obtain ⟨s1, s2, s3, hc, _, k2, _, k3, _⟩ := crash_K hwf bigs ops k (fun _ h => h) hrun hcr
+  exact ⟨s1, s2, s3, hc, k2.maxH, k3.maxH⟩
+
+example : crashForeign [] wlReorgNoSave 40 = false := by decide +kernel
+
+/-- a history without an in-history restart whose blocks arrive parents first: the uninterrupted run knows every block at its end -/
+theorem restart_free_run_accepts_all (bigs : List Coin) (ops : List Op) (hwf : WF (submitted ops))
+    (hpf : ParentsFirst (submitted ops)) (hrun : (run bigs ops).foreign = false) (hnr : ∀ op ∈ ops, op ≠ Op.reopen) :
+    ∀ b ∈ submitted ops, InT (run bigs ops).n.tree b.id :=
+  run_accepts_all bigs ops hwf hpf hrun hnr
+
+/-- `crash_consistent` — ALL FOUR conjuncts of `consistentAt`, for EVERY history and EVERY crash point k (also k beyond the end):
+    the restart completes without a panic, the recovered tip is genesis or a submitted block, the recovered unspent set is the
+    replay of that tip's chain, and after feeding every block again tip and unspent set equal the uninterrupted run's.
+    Hypotheses: see the comment above (well-formed blocks; parents first; a unique highest block; the uninterrupted run knows every
+    block at its end — automatic without in-history restarts; no undo file of another block read = exclusion of the known finding
+    undo-file-keyed-by-height). -/
+theorem crash_consistent (bigs : List Coin) (ops : List Op) (k : Nat) (hwf : WF (submitted ops))
+    (hpf : ParentsFirst (submitted ops)) (huniq : UniqueBest (submitted ops))
+    (hacc : ∀ b ∈ submitted ops, InT (run bigs ops).n.tree b.id)
+    (hrun : (run bigs ops).foreign = false) (hcr : crashForeign bigs ops k = false) :
+    consistentAt bigs ops k = true :=
+  crash_consistent' bigs ops k hwf hpf huniq hacc hrun hcr
+
+example : ParentsFirst (submitted wlReorgNoSave) ∧ UniqueBest (submitted wlReorgNoSave) ∧
+    (∀ b ∈ submitted wlReorgNoSave, InT (run [] wlReorgNoSave).n.tree b.id) := by
+  refine ⟨?_, ?_, ?_⟩
+  · simp [ParentsFirst, PFrom, submitted, wlReorgNoSave, b1, bA, bA2, bA3, bB1, bB2]
+  · unfold UniqueBest; decide +kernel
+  · unfold InT; decide +kernel
+
+/-- the same for histories without an in-history restart, where only properties of the INPUT remain as hypotheses -/
+theorem crash_consistent_restart_free (bigs : List Coin) (ops : List Op) (k : Nat) (hwf : WF (submitted ops))
+    (hpf : ParentsFirst (submitted ops)) (huniq : UniqueBest (submitted ops)) (hnr : ∀ op ∈ ops, op ≠ Op.reopen)
+    (hrun : (run bigs ops).foreign = false) (hcr : crashForeign bigs ops k = false) :
+    consistentAt bigs ops k = true :=
+  crash_consistent' bigs ops k hwf hpf huniq (run_accepts_all bigs ops hwf hpf hrun hnr) hrun hcr
 
 /-- `crash_consistent`, the part that holds for EVERY history over {submit (extend / side branch / reorganise), idle,
     close, restart, skip, pause, hurry} and EVERY crash point k (also k beyond the end = no crash, also inside the
@@ -193,6 +260,26 @@ theorem crash_consistent_partial_reorg_before_save :
   have h : ∀ k, k < (run [] wlReorgNoSave).es.length + 1 → consistentAt [] wlReorgNoSave k = true := by decide +kernel
   exact h k (by omega)
 
+/-- the exclusion hypothesis of `crash_consistent` is the exact one on the witness history (which satisfies every other hypothesis:
+    well-formed, parents first, unique highest block, no in-history restart, the run itself reads no foreign undo file): the crash
+    points at which the restart reads an undo file of another block are exactly those at which `consistentAt` fails. -/
+theorem witness_exclusion_exact :
+    ∀ k, k ≤ (run [] witnessOps).es.length →
+      (crashForeign [] witnessOps k = true ↔ consistentAt [] witnessOps k = false) := by
+  intro k hk
+  have h : ∀ k, k < (run [] witnessOps).es.length + 1 →
+      (crashForeign [] witnessOps k = true ↔ consistentAt [] witnessOps k = false) := by decide +kernel
+  exact h k (by omega)
+
+example : ParentsFirst (submitted witnessOps) ∧ UniqueBest (submitted witnessOps) ∧ (∀ op ∈ witnessOps, op ≠ Op.reopen) ∧
+    crashForeign [] witnessOps 10 = false := by
+  refine ⟨?_, ?_, ?_, by decide +kernel⟩
+  · simp [ParentsFirst, PFrom, submitted, witnessOps, b1, bA, bB1, bB2]
+  · unfold UniqueBest; decide +kernel
+  · intro op h
+    simp only [witnessOps, List.mem_cons, List.mem_nil_iff, or_false] at h
+    rcases h with h | h | h | h | h | h | h <;> subst h <;> simp
+
 /-! ## clean shutdown -/
 
 /-- `clean_restart_identity` on the concrete shapes: after Close the restart yields exactly the tip and
@@ -201,14 +288,20 @@ theorem clean_restart_identity_partial :
     cleanRestartOK [] wlExtend = true ∧ cleanRestartOK [2, 3] wlSave = true ∧ cleanRestartOK [2, 3] wlAbort = true ∧
     cleanRestartOK [] wlReorgNoSave = true ∧ cleanRestartOK [] witnessOps = true := by
   decide +kernel
--- OPEN: clean_restart_identity : ∀ bigs ops, WF (submitted ops) → (run bigs (ops ++ [.close])).err = none →
---         cleanRestartOK bigs (ops ++ [.close]) = true
--- (without height well-formedness it is false of the model: a block may carry any height field).
--- Proved of it for ALL histories: the NewChainExt stage (`clean_restart_reopen_identity_partial`: exactly the node's tip, set
--- (same list) and height), and that the set is the replay of the tip's chain (`running_set_is_replay`).  Missing: that the
--- client's recovery loop is then a no-op, i.e. no index record on disk is higher than the tip at shutdown — the same
--- maximal-height invariant as (b) above ("every index record / queued block is a tree node; with err = none every tree node is
--- at most as high as the tip"; MoveToBlock reaching its destination is proved, the threading through all operations is not).
+/-- `clean_restart_identity` in full, EVERY history: after Close the whole restart — NewChainExt AND the client's recovery loop —
+    yields exactly the running node's tip and unspent set (the same list): no index record on disk is higher than the tip at
+    shutdown, so the recovery loop is a no-op.  Hypotheses: well-formed blocks (without height well-formedness it is false of the
+    model: a block may carry any height field) and no undo file of another block read during the run (that the run did not panic
+    follows: `run_never_panics`). -/
+theorem clean_restart_identity (bigs : List Coin) (ops : List Op) (hwf : WF (submitted (ops ++ [.close])))
+    (hrun : (run bigs (ops ++ [.close])).foreign = false) :
+    cleanRestartOK bigs (ops ++ [.close]) = true :=
+  clean_restart' bigs ops hwf hrun
+
+example : WF (submitted ([.submit b1, .idle, .submit bA] ++ [.close])) ∧
+    (run [] ([.submit b1, .idle, .submit bA] ++ [.close])).foreign = false := by
+  refine ⟨⟨by decide +kernel, by decide +kernel, by decide +kernel, by decide +kernel, by decide +kernel⟩, by decide +kernel⟩
+
 
 /-- clean shutdown, every history: after Close (no panic before) NewChainExt on the directory yields EXACTLY the
     running node's tip, unspent set (the same list) and height. -/
@@ -291,6 +384,28 @@ example : ∀ op ∈ [POp.write 1 300, .crashMid 2 250, .write 2 250, .restart, 
 theorem dat_positions_need_the_seek :
     readsBack (prun true {} [.write 1 300, .crashMid 2 250, .write 2 250, .write 3 200]).d = false ∧
     readsBack (prun false {} [.write 1 300, .crashMid 2 250, .write 2 250, .write 3 200]).d = true := by
+  decide
+
+/-! ## data-file roll-over (Model/PersistRoll.lean): BlockDBOpts.MaxDataFileSize, several bl<n>.dat files -/
+
+/-- with LoadBlockIndex as written (data-file bump, THEN the unconditional append-position update) every index record reads back
+    exactly its own block from its own data file after ANY history of writes (with or without roll-over, any MaxDataFileSize),
+    kills right after the roll-over's file creation, kills between the data write and the index write, and restarts. -/
+theorem dat_rollover_sound (maxSize : Nat) (ops : List ROp) (hl : ∀ op ∈ ops, rlenPos op) :
+    rreadsBack (rrun false maxSize {} ops).d = true :=
+  rreadsBack_of (rrun_inv maxSize ops {} rinit_inv hl).disk
+
+example : ∀ op ∈ [ROp.write 1 300, .write 2 300, .crashRoll 3 300, .restart, .crashMid 3 200, .write 3 200], rlenPos op := by
+  intro op h
+  simp only [List.mem_cons, List.mem_nil_iff, or_false] at h
+  rcases h with h | h | h | h | h | h <;> subst h <;> simp [rlenPos]
+
+/-- … and it is the unconditional update that does it: if the append-position update is an `else if` of the data-file bump (the
+    first record of a newer data file then leaves the position at 0), a restart while the newest data file holds exactly one
+    block makes the next block overwrite it. -/
+theorem dat_rollover_needs_the_update_after_the_bump :
+    rreadsBack (rrun true 500 {} [.write 1 300, .write 2 300, .restart, .write 3 200]).d = false ∧
+    rreadsBack (rrun false 500 {} [.write 1 300, .write 2 300, .restart, .write 3 200]).d = true := by
   decide
 
 end GocoinV.Props.C07
